@@ -54,7 +54,7 @@ theorem step_cover (E : Env S) (g g' : Gen S) (out : Option Prog) (h : step E g 
             split at h
             · simp at h
             · rename_i s2 maxi' hsl
-              obtain ⟨_, _, _, _, _, _, _, _, hcov⟩ := pop_expand E g.st s2 nt top q' args maxi maxi' hi.st hpop hargs hsl
+              obtain ⟨_, _, _, _, _, _, _, _, hcov, _, _⟩ := pop_expand E g.st s2 nt top q' args maxi maxi' hi.st hpop hargs hsl
               have hc2 : CovSt E s2 := fun nt' P' args' ha c hcl => hcov nt' P' c (hc nt' P' args' ha c hcl)
               split at h
               · simp at h
